@@ -33,6 +33,19 @@ CHECKS.update({
             "DESIGN.md §3 C20"),
 })
 
+CHECKS.update({
+    "C06": ("exploration",
+            "model-based property testing with a validity-predicate oracle (f64 reference distances) and a completeness relation for recent writes",
+            "Generated tiered histories (single/bulk writes, overwrites, duplicates, deletes to 95 % tombstones, drains, tombstone compaction, restarts) x 3 metrics x SIMD-tail dimensions 1..130 x k 1..1000 x ef overrides, searched through all five search entry points; each result must have <= k distinct live ids, non-decreasing distances, each distance within 2e-4+2e-4|d| of the f64 distance to the id's current vector, and must not omit a still-mirrored acknowledged write that is strictly closer than the k-th result.",
+            "Cosine/InnerProduct accept either of the engine's two documented distance forms (1-dot on stored vectors, 1-cos). Completeness is judged only for results with exactly k entries (the property's wording) and only for documents present in the recent-write tier at judgement time. Degraded paths are excluded.",
+            "DESIGN.md §3 C06"),
+    "C07": ("exploration",
+            "model-based property testing with boundary-aimed generation; history oracle over the search/write log",
+            "Generated search/write histories over a small query pool, 3 scopes, k in {1,2,3,5,10}, cache capacities {1,2,16}, dims on both sides of the 32-lane prefix, with writes placed at relative offsets 1e-6..0.5 on both sides of the cached boundary (tail-heavy energy), deletes/overwrites of cached ids, bulk loads, drains, stale-mirror pokes. Every CacheHit must be explainable by a same-scope store of an equivalent query with k' >= k, contain only live ids with distances matching their current vectors, and omit no document written since the store that lies strictly inside the boundary.",
+            "Sequential part only so far (the searcher||writer schedule part needs the scheduler engine). Similarity threshold 1.0. Equal 1/32768-quantised normalised queries are one key by documented design. Metadata-dependent staleness is a server-level (filter) matter and is judged there.",
+            "DESIGN.md §3 C07"),
+})
+
 NOT_APPLICABLE = {
 }
 
